@@ -8,7 +8,7 @@ C04_TAGS = {"TEMPLATE", "LAYOUT", "EMPTY_NAME", "RESERVED", "ILLEGAL_STRUCT", "D
             "UNRESOLVED", "USECOUNT"}
 C14_TAGS = {"NAME_SHAPE", "NEEDLESS_QUALIFICATION", "FIRST_NOT_ROOT", "STRUCT_COUNT"}
 C09_TAGS = {"FIELD_ORDER", "STRUCT_ORDER", "SORT_CHANGES_MORE", "STRUCT_COUNT"}
-C10_TAGS = {"DERIVE", "NEEDLESS_RENAME", "OPTION_CHANGES_SKELETON", "FIELDS_DIFFER", "STRUCT_COUNT"}
+C10_TAGS = {"TEMPLATE", "DERIVE", "NEEDLESS_RENAME", "OPTION_CHANGES_SKELETON", "FIELDS_DIFFER", "STRUCT_COUNT"}
 C16_TAGS = {"FIELDS_DIFFER", "STRUCT_COUNT"} | C04_TAGS
 
 POOLS = {
